@@ -40,7 +40,7 @@ NT_RULE = ('case = one object (mode / StatMech +-references +-misc models / Nasa
            'verbose, rev, act, include_ZPE, del_m, per-species block) or a per-mass unit; distinct = distinct '
            'canonical JSON')
 REQUIRED_ORACLES = ['U1', 'U2', 'U3']
-ASSUMPTIONS = ['temperatures as ndarray / list / tuple (length 1, 2, 3+) are judged for Cp, H, S, G of Nasa / Nasa9 / Shomate (values, shape = shape of dimensionless x R (x T), both refuse or both answer); the inherited _ModelBase get_U / get_F of these classes with a list or tuple are reported, not judged; StatMech (documented for float T): both answering must agree, one-sided refusals are reported (SEQ_STRICT_STATMECH)',
+ASSUMPTIONS = ['temperatures as ndarray / list / tuple (length 1, 2, 3+) are judged for every dimensional getter of Nasa / Nasa9 / Shomate, own and inherited (values, shape = shape of dimensionless x R (x T), both refuse or both answer); StatMech (documented for float T): both answering must agree, one-sided refusals are reported (SEQ_STRICT_STATMECH)',
                'histories: `elements` is a public, mutable dict attribute; "the species\' molar mass" is that of the composition at the time of the call, however it got there (in-place edit or re-assignment)',
                'unit strings = the 16 keys documented for pmutt.constants.R; energies take them without "/K"; '
                'per-mass forms replace /mol by /g or /kg and exist only for molar units and objects with a composition',
@@ -143,7 +143,8 @@ def _required_classes():
     req += ['opt:' + o for o in ('none', 'P', 'x', 'S_elements', 'use_references', 'verbose', 'rev', 'act',
                                  'include_ZPE', 'del_m', 'P_block')]
     req += ['T:scalar', 'T:array', 'T:list', 'T:tuple', 'T:default']
-    for cl, qs in (('Nasa', EMP_OWN), ('Nasa9', EMP_OWN), ('Shomate', EMP_OWN), ('StatMech', STATMECH8)):
+    emp = EMP_OWN + EMP_INHERITED
+    for cl, qs in (('Nasa', emp), ('Nasa9', emp), ('Shomate', emp), ('StatMech', STATMECH8)):
         req += ['seq:%s.get_%s:%s:n%s' % (cl, q, cont, n) for q in qs for cont in ('ndarray', 'list', 'tuple')
                 for n in ('1', '2', '3+')]
     req += ['statmech:refs', 'statmech:norefs', 'statmech:misc', 'statmech:nomisc',
@@ -969,13 +970,6 @@ def t_kind(T, container=None):
     return container if container in ('list', 'tuple') else 'array'
 
 
-def inherited_energy_with_sequence(subj, g, tk):
-    """Nasa / Nasa9 / Shomate inherit get_U and get_F from _ModelBase; there a float (U/RT = 0, or a length-1
-    result collapsed to a float) is multiplied by the list / tuple itself -> TypeError while the twin answers.
-    Reported (evidence: inherited_getter_list_T), not judged."""
-    return tk in ('list', 'tuple') and subj.kind in ('nasa', 'nasa9', 'shomate') and g['name'] in ('get_U', 'get_F')
-
-
 # StatMech is documented for float T.  With a sequence, both forms answering must agree (value and shape); one
 # form refusing while the other answers is recorded (evidence: seq_T_one_sided) and becomes a violation with True
 SEQ_STRICT_STATMECH = False
@@ -1064,8 +1058,6 @@ def run_history(spec, ctx):
             ctx.cls('hist:%s:%s' % (cls, tag))
         _, fp, _ = factor(u, comps[k])
         for g in sj.getters:
-            if inherited_energy_with_sequence(sj, g, tk):
-                continue
             ev = Eval(sj, g, T, opts, ctx)
             if ev.twin_exc is not None or not ev.finite:
                 x['twin_raised_hist'] = x.get('twin_raised_hist', 0) + 1
@@ -1138,13 +1130,6 @@ def run_case(spec, ctx):
             continue
         present = subj.present(g, opts)
         seq = isinstance(T, list)
-        if inherited_energy_with_sequence(subj, g, tk):
-            # reported, not judged: the inherited _ModelBase energies multiply a float (U/RT = 0, or a length-1
-            # result collapsed to a float) by the list itself -> TypeError while the twin answers
-            x.setdefault('inherited_getter_list_T', {})
-            key = '%s.%s:%s' % (subj.cls, g['name'], tk)
-            x['inherited_getter_list_T'][key] = x['inherited_getter_list_T'].get(key, 0) + 1
-            continue
         ev = Eval(subj, g, T, opts, ctx)
         base_mech = {'class': subj.cls, 'getter': g['name'], 'T_kind': tk}
         if seq:
